@@ -111,7 +111,10 @@ class LogfileHandler(mlzlog.LogfileHandler):
                 files = sorted(entry.path for entry in it
                                if entry.name.startswith(prefix) and entry.name.endswith('.log')
                                and entry.is_file(follow_symlinks=False))
-            for filepath in files[:-self.max_days]:
+            # the file being written and the max_days - 1 newest earlier files are kept,
+            # files dated later than the current one are not counted (and not touched)
+            earlier = [p for p in files if p < self.baseFilename]
+            for filepath in earlier[:max(0, len(earlier) - (self.max_days - 1))]:
                 os.remove(filepath)
 
 
